@@ -92,6 +92,34 @@ def run(ctx):  # noqa: C901
                     okim = True
             if any("1j" in unparse(s) for s in g.node.body):
                 ctx.ob("R-THREAD", g, "imaginary part added iff not is_real", okim, "if not is_real: + 1j * draw" if okim else "the real/complex switch is inverted or gone")
+    # Schmidt-rank branch of random_state_vector: the swap's dim list must cut kron(a, b) where a and b end
+    rsv = m.func("random_state_vector.random_state_vector")
+    from ..shapes import ShapeEval as _SE, kron_dims_factorise
+    se_ = _SE(m, rsv)
+    nsw = 0
+    for c, cal in calls_from(m, rsv, "swap.swap"):
+        b = m.bind(c, cal.func)
+        if not isinstance(b.get("rho"), ast.AST) or not isinstance(b.get("dim"), ast.AST):
+            continue
+        nsw += 1
+        ok, det = kron_dims_factorise(se_, se_.N(b["rho"]), se_.N(b["dim"]), c.lineno)
+        ctx.ob("R-SHAPE", rsv, "swap dim list factorises the Kronecker operands (k x d_A | k x d_B)", ok, det, c, required=ok is not None)
+        st, dt = se_.N(b["sys"]), se_.N(b["dim"])
+        okl, detl = None, f"sys={unparse(b['sys'])} dim={unparse(b['dim'])} not literal lists"
+        if st[0] == "list" and len(st) == 3 and all(x[0] == "c" and isinstance(x[1], int) for x in st[1:]) and dt[0] == "list":
+            i, j = st[1][1] - 1, st[2][1] - 1  # swap takes 1-based positions
+            lay = list(dt[1:])
+            if 0 <= i < len(lay) and 0 <= j < len(lay):
+                lay[i], lay[j] = lay[j], lay[i]
+                want = [("n", "k_param"), ("n", "k_param"), ("sub", ("n", "dim"), ("c", 0)), ("sub", ("n", "dim"), ("c", 1))]
+                okl = lay == want
+                detl = "layout after the swap is [k, k, d_A, d_B]" if okl else \
+                    f"layout after the swap is {[show(x) for x in lay]}: <psi| (x) I contracts the first k*k block and leaves d_A (x) d_B in the order of `dim` only for [k, k, dim[0], dim[1]]"
+            else:
+                okl, detl = False, f"sys={unparse(b['sys'])} is outside the {len(lay)} listed subsystems (1-based)"
+        ctx.ob("R-LAYOUT", rsv, "after the swap the two ancillas come first, then d_A, d_B in the order of `dim`", okl, detl, c, required=okl is not None)
+    if not nsw:
+        ctx.ob("R-SHAPE", rsv, "swap dim list factorises the Kronecker operands (k x d_A | k x d_B)", None, "no swap(kron(..), sys, dim) call in the Schmidt-rank branch", required=False)
     # shapes
     rdm = m.func("random_density_matrix.random_density_matrix")
     se = ShapeEval(m, rdm)
